@@ -204,6 +204,8 @@ def metrics(M, n):
         ("eigendecomposed", M.EigendecomposedPositiveDefiniteMatrix(Q, lam), Q @ np.diag(lam) @ Q.T),
         # implicitly sized but not the identity (added after seed C07-c; kept last: some case lists slice this list by position)
         ("positive scaled identity of implicit size", M.PositiveScaledIdentityMatrix(s), s * eye(n)),
+        # metric passed as a plain 2-D array (documented: wrapped as a dense positive definite matrix); added after seed C05-f
+        ("dense 2-D array", L @ L.T, L @ L.T),
     ]
 
 
@@ -286,7 +288,7 @@ def c05_cases(S, M, ST, O, which):
                 k += 1
         # constrained: one constraint on R^2
         model.n_constr = 1
-        for label, marg, view in metrics(M, n)[1:5] + metrics(M, n)[-1:]:
+        for label, marg, view in metrics(M, n)[1:5] + metrics(M, n)[-2:-1]:
             for hausdorff in (True, False):
                 if k == which:
                     sysm = S.DenseConstrainedEuclideanMetricSystem(model.neg_log_dens, model.constr, metric=marg, dens_wrt_hausdorff=hausdorff,
@@ -318,8 +320,9 @@ def _run_indexed(fn_name, which):
     S, M, ST = load_systems()
     O = Out()
     try:
-        with shimmed(M):
-            globals()[fn_name](S, M, ST, O, which)
+        with shimmed(M, S):
+            # value-dependent branches of the library (comparisons of symbolic entries) fork into paths with recorded constraints
+            symla.run_paths(lambda _path: globals()[fn_name](S, M, ST, O, which))
     except Exception:  # noqa: BLE001
         O.obs.append((f"systems.{fn_name}[{which}]/harness", core.ERROR, "symla", 0.0, traceback.format_exc()[-1500:], None, None))
     return O.obs
@@ -327,7 +330,7 @@ def _run_indexed(fn_name, which):
 
 def _count(fn_name):
     S, M, ST = load_systems()
-    with shimmed(M):
+    with shimmed(M, S):
         return globals()[fn_name](S, M, ST, Out(), -1)
 
 
@@ -355,7 +358,7 @@ def _flow_cases(S, M, model):
     n = DIM
     out = []
     for label, marg, view in metrics(M, n):
-        eig_ok = label != "Cholesky-factored"  # the Gaussian flow needs metric.eigval/eigvec: generic numpy eigh of a dense matrix is not mici's code
+        eig_ok = label not in ("Cholesky-factored", "dense 2-D array")  # the Gaussian flow needs metric.eigval/eigvec: generic numpy eigh of a dense matrix is not mici's code
         out.append((f"Euclidean[{label}]", lambda marg=marg: S.EuclideanMetricSystem(model.neg_log_dens, metric=marg, grad_neg_log_dens=model.grad_neg_log_dens), view, False, None))
         if eig_ok:
             out.append((f"Gaussian[{label}]", lambda marg=marg: S.GaussianEuclideanMetricSystem(model.neg_log_dens, metric=marg, grad_neg_log_dens=model.grad_neg_log_dens), view, True, None))
